@@ -45,11 +45,13 @@ def parse(path_or_bytes):
     data = flat.reshape((nz, ny, nx)).transpose(2, 1, 0)
     mx, my, mz = struct.unpack(bo + "iii", b[28:40])
     cella = struct.unpack(bo + "fff", b[40:52])
+    (ispg,) = struct.unpack(bo + "i", b[88:92])
     return {"nx": nx, "ny": ny, "nz": nz, "mode": mode, "dtype": _MODES[mode], "nsymbt": nsymbt, "data": data,
-            "flat": flat, "mxyz": (mx, my, mz), "cella": cella}
+            "flat": flat, "mxyz": (mx, my, mz), "cella": cella, "ispg": ispg}
 
 
-def build(data_xyz, voxel=1.0):
+def build(data_xyz, voxel=1.0, ispg=1):
+    """Bytes of an MRC2014 file for data indexed [x, y, z].  ispg=1: volume (default); ispg=0: image stack (IMOD tilt series)."""
     a = np.asarray(data_xyz)
     if a.ndim != 3:
         raise MRCError("need 3-D data")
@@ -59,13 +61,14 @@ def build(data_xyz, voxel=1.0):
     nx, ny, nz = a.shape
     h = bytearray(1024)
     h[0:16] = struct.pack("<iiii", nx, ny, nz, _REV[kind])
-    h[28:40] = struct.pack("<iii", nx, ny, nz)
-    h[40:52] = struct.pack("<fff", nx * voxel, ny * voxel, nz * voxel)
+    mz = 1 if ispg == 0 else nz  # image stacks: one section per "cell" along z
+    h[28:40] = struct.pack("<iii", nx, ny, mz)
+    h[40:52] = struct.pack("<fff", nx * voxel, ny * voxel, mz * voxel)
     h[52:64] = struct.pack("<fff", 90.0, 90.0, 90.0)
     h[64:76] = struct.pack("<iii", 1, 2, 3)
     af = a.astype("f8")
     h[76:88] = struct.pack("<fff", float(af.min()) if a.size else 0.0, float(af.max()) if a.size else 0.0, float(af.mean()) if a.size else 0.0)
-    h[88:92] = struct.pack("<i", 1)
+    h[88:92] = struct.pack("<i", ispg)
     h[104:108] = b"\x00\x00\x00\x00"
     h[108:112] = struct.pack("<i", 20140)
     h[208:212] = b"MAP "
@@ -75,6 +78,6 @@ def build(data_xyz, voxel=1.0):
     return bytes(h) + flat
 
 
-def write(path, data_xyz, voxel=1.0):
+def write(path, data_xyz, voxel=1.0, ispg=1):
     with open(path, "wb") as f:
-        f.write(build(data_xyz, voxel))
+        f.write(build(data_xyz, voxel, ispg))
